@@ -99,9 +99,9 @@ fn extra_engines(prop: &str, tier: Tier, seed: u64, planned: u64, first: &std::c
         // c18big: rank/select structures large enough for their sampled search paths (3 kinds, by scenario index)
         ("C18", Tier::Quick) => vec![("c18all", 3, 5, &["0.3"], false), ("c18big", 3, 4, &["0.3"], false)],
         ("C18", Tier::Thorough) => vec![
-            ("c18", 6, 24, &["0.01", "0.1", "0.5"], false),
-            ("c18all", 6, 16, &["0.05", "0.5"], false),
-            ("c18big", 6, 16, &["0.1", "0.5"], false),
+            ("c18", 4, 16, &["0.01", "0.1", "0.5"], false),
+            ("c18all", 3, 16, &["0.05", "0.5"], false),
+            ("c18big", 3, 12, &["0.1", "0.5"], false),
         ],
         ("C02", Tier::Thorough) => vec![("c02", 4, 32, &["0.01"], false)],
         ("C03", Tier::Thorough) => vec![("c03", 4, 32, &["0.01"], false)],
